@@ -106,6 +106,10 @@ fn auxv_first(w: &World, key: u64) -> Option<u64> {
     if w.auxv_missing {
         return None;
     }
+    // the kernel's auxv is read through the process id: an exited (zombie) leader has none
+    if w.threads.first().map(|t| t.zombie).unwrap_or(false) {
+        return None;
+    }
     w.auxv.iter().find(|(k, _)| *k == key).map(|(_, v)| *v)
 }
 
